@@ -24,6 +24,9 @@ ENGINES = [
     {"name": "exec", "path": "lib/domain.py (exec_engine) + harness/realprobe (TestExec) + tla/{TaskExec,RowsExec}.tla", "serves_properties": ["C04", "C08"],
      "kind_free_text": "TLC-checked case spec of the real task runner's execute loop (line outcomes, allow_failure, cancel, dependent task); "
                        "every case run with real processes; rows validated by TLC"},
+    {"name": "binary", "path": "lib/binary_engine.py + tla/{App,RowsBin}.tla", "serves_properties": ["C08", "C10", "C11", "C14", "C16", "C17", "C18", "C20"],
+     "kind_free_text": "the real prunner binary built from /repo under SIGINT / SIGTERM / SIGUSR1 / restart and single-field reloads; "
+                       "facts validated by TLC against the scenario table; App.tla model-checked"},
     {"name": "store", "path": "lib/store_engine.py + harness/storeprobe + tla/{Store,StoreTrace}.tla", "serves_properties": ["C09"],
      "kind_free_text": "TLC-checked crash model of the save protocol; strace traces validated by TLC; real SIGKILL at every syscall boundary"},
     {"name": "auth", "path": "lib/domain.py (c14) + harness/authprobe + tla/{AuthTable,Auth,AuthTrace}.tla", "serves_properties": ["C14"],
